@@ -64,8 +64,11 @@ def run_history(G, style, rev, order, seal=True):
     root = G["root"]
     root_is_task = is_task(G, root)
     cyc = Gr.has_cycle(G)
-    for l in order:
-        obs.append(("pre", l, Gr.ident(B.objs[l]), Gr.raw_ident(B.objs[l])))
+    if style != "assign-peek":
+        # (with "assign-peek" the only unsealed requests are those made in the middle of the construction: nothing is
+        # asked between the last assignment and the sealing)
+        for l in order:
+            obs.append(("pre", l, Gr.ident(B.objs[l]), Gr.raw_ident(B.objs[l])))
     if seal:
         if root_is_task and not cyc:
             Gr.seal_root(G, B)
@@ -879,18 +882,18 @@ def eval_c13(item):
         else:
             pre_labels = [p for l in _reach_saved(G, submittable) for p in G["nodes"][l].get("pre", [])]
         pre_labels = list(dict.fromkeys(pre_labels))
-        want_pre = sorted(G["nodes"][p]["args"].get("k", 0) for p in pre_labels)
+        sig_of = lambda p: (SCHEMA[G["nodes"][p]["cls"]]["tid"], G["nodes"][p]["args"].get("k", 0))
+        want_pre = sorted(sig_of(p) for p in pre_labels)
         init_labels = G["nodes"][root].get("init", []) if (route == "params" and submittable) else []
-        want_init = [G["nodes"][p]["args"].get("k", 0) for p in init_labels]
-        kinds = ["pre" if _cls_key_of(e[1], True) in ("pre", "pre_old") else "init" for e in execs]
-        got_pre = sorted(e[1].k for e, k in zip(execs, kinds) if k == "pre")
-        got_init = [e[1].k for e, k in zip(execs, kinds) if k == "init"]
-        if got_pre != want_pre:
-            out["problems"].append({"kind": "pre-task-executions", "executed": got_pre, "attached": want_pre})
-        if got_init != want_init:
-            out["problems"].append({"kind": "init-task-executions", "executed": got_init, "attached": want_init})
-        if "init" in kinds and "pre" in kinds[kinds.index("init"):]:
-            out["problems"].append({"kind": "init-before-pre", "order": kinds})
+        want_init = [sig_of(p) for p in init_labels]
+        # the role of an executed lightweight task is its place in the description (any class can play either role):
+        # first all pre-tasks (in any order), then the init tasks in their order
+        observed = [(SCHEMA[_cls_key_of(e[1], True)]["tid"], e[1].k) for e in execs]
+        got_pre, got_init = sorted(observed[:len(want_pre)]), observed[len(want_pre):]
+        if got_pre != want_pre or (len(observed) < len(want_pre)):
+            out["problems"].append({"kind": "pre-task-executions", "executed": observed, "attached": want_pre, "init": want_init})
+        elif got_init != want_init:
+            out["problems"].append({"kind": "init-task-executions", "executed": observed, "attached_pre": want_pre, "init": want_init})
         exec_ids = [id(e[1]) for e in execs]
         if len(exec_ids) != len(set(exec_ids)):
             out["problems"].append({"kind": "task-executed-twice"})
